@@ -634,7 +634,7 @@ class SSHLineEditor:
         if self._line and not line_mode:
             data = self._line
             self._erase_input()
-            self._line = ''
+            self._reset_line()
 
             self._session.data_received(data, None)
 
